@@ -125,12 +125,24 @@ INVALID = {
     "inet-address": ["host:99999", "a b", ""],
 }
 DATATYPES = sorted(VALID)
+# values that only a schema default can hold (a configuration line cannot
+# contain a newline); <default> content is stripped, inner text kept
+DEFAULT_EXTRA = {
+    "string": [("a < > b", "a < > b"), ("x\ny", "x\ny"),
+               ("p &\n < q", "p &\n < q")],
+    "null": [("m\n\nn", "m\n\nn")],
+    "string-list": [("a\nb  c", ["a", "b", "c"]), ("u < > v",
+                                                   ["u", "<", ">", "v"])],
+}
 
 
 def convert(dt, text):
     """('ok', value) | ERR | None (text outside the vocabulary: unjudged)."""
     if dt in ("string", "null"):
         return ("ok", text)
+    for t, v in DEFAULT_EXTRA.get(dt, ()):
+        if t == text:
+            return ("ok", v)
     for t, v in VALID[dt]:
         if t == text:
             return ("ok", v)
@@ -397,11 +409,22 @@ def _gen_key_child(rng, cont_kt, used_names, used_attrs, has_wild, counter):
     r = rng.random()
     if r < 0.25:
         c["required"] = True
+        if c["name"] == "+" and rng.random() < 0.4:
+            # a required wildcard map may still carry defaults; they do not
+            # count towards "filled"
+            ks = rng.sample(WILD_KEYS[cont_kt], 1)
+            c["defaults"] = [[ks[0], rng.choice(VALID[dt])[0].strip()]]
+            c["_required_with_defaults"] = True
     elif r < 0.7:
         # defaults
         def dval():
             if rng.random() < 0.12 and INVALID[dt]:
                 v = rng.choice(INVALID[dt])
+            elif dt in DEFAULT_EXTRA and rng.random() < 0.25 and \
+                    (kind == "multikey" or c["name"] == "+"):
+                # element-form defaults only (an attribute value would have
+                # its line breaks normalised by the XML parser)
+                v = rng.choice(DEFAULT_EXTRA[dt])[0]
             else:
                 v = rng.choice(VALID[dt])[0]
             return v.strip()
@@ -574,6 +597,44 @@ def random_model(rng, handlers=True, override_keytype=False):
     if not handlers:
         strip_handlers(model)
     return model
+
+
+def targeted_extends_model(rng):
+    """Base type whose only children are wildcard keys with defaults keyed
+    in mixed case; derived types (chain <=2) overriding the key type in
+    every direction; all declared names are fixed points."""
+    def wild(kind, attr):
+        ks = rng.sample(["Wild", "wild", "Zed", "w2", "ALPHA"], 3)
+        dfl = [[k, rng.choice(["a", "b", "c"])] for k in ks]
+        return {"kind": kind, "name": "+", "attribute": attr,
+                "datatype": "string", "required": False, "handler": None,
+                "default": None, "defaults": dfl}
+    k1, k2, k3 = (rng.choice(KEYTYPES) for _ in range(3))
+    types = [
+        {"kind": "section", "name": "tb", "keytype": k1, "datatype": None,
+         "extends": None, "implements": None,
+         "children": [wild(rng.choice(["key", "multikey"]), "wmap")]},
+        {"kind": "section", "name": "td", "keytype": k2, "datatype": None,
+         "extends": "tb", "implements": None, "children": []},
+        {"kind": "section", "name": "te",
+         "keytype": k3 if rng.random() < 0.6 else None, "datatype": None,
+         "extends": "td", "implements": None, "children": []},
+    ]
+    w = types[0]["children"][0]
+    if w["kind"] == "key":
+        seen = set()
+        keep = []
+        for k, v in w["defaults"]:
+            if k.lower() in seen:
+                continue
+            seen.add(k.lower())
+            keep.append([k, v])
+        w["defaults"] = keep
+    children = [{"kind": "multisection", "name": "*", "type": t,
+                 "required": False, "handler": None,
+                 "attribute": "s_" + t} for t in ("tb", "td", "te")]
+    return {"keytype": "basic-key", "datatype": None, "handler": None,
+            "children": children, "types": types}
 
 
 def strip_handlers(model):
